@@ -442,3 +442,8 @@ OUTSIDE = [
     "None / falsy plain items are covered for the tools that do not call a predicate or compare items (pool jobs)",
     "default accumulate (operator.add) over non-int items (ints: running sums proved equal for all integer values)",
 ]
+
+MANIFEST = {
+    "text": 'Differential bounded symbolic execution: each tool runs next to its stdlib namesake on the same item objects; item keys, islice/batched/enumerate integers and flags are unconstrained solver variables, so every order-type (incl. ties between distinguishable items) and every parameter region is a decided path; identity of yielded objects and type of ending compared. Exhaustive within S<=3..4 sources and N<=3..7 items. Nothing is claimed outside the bounds listed in the evidence file.',
+    "note": 'Trusted: CrossHair 0.0.110 (with short-circuiting off and a refined callable() model), z3 5.1.0, the harness oracles. Oracles: real builtins/itertools/heapq in the same path; Python ports of islice/batched/enumerate only where the C function would realize symbolic ints (validated against the real functions on a concrete grid at every run).',
+}
